@@ -24,7 +24,8 @@ CfgOf(j) == [strict |-> j.strict, leaves |-> [i \in 1..Len(j.leaves) |-> LeafOf(
 NodeOf(j) == [m |-> j.m, a |-> j.a, sc |-> j.sc, up |-> j.up]
 OutMatches(o, j) ==
   /\ o.k = j.k
-  /\ (o.k = "ret" => o.id = j.id /\ o.gen = j.gen)
+  \* gen 0 = the configured value itself, anything else = some copy of it (how many hops is the library's business)
+  /\ (o.k = "ret" => o.id = j.id /\ ((o.gen = 0) <=> (j.gen = 0)))
   /\ (o.k = "panic" => o.user = j.user /\ (o.user \/ o.class = j.class \/ j.class = "other"))
 
 TNew ==
